@@ -335,6 +335,19 @@ def keep_between_queries(rep, fnf):
                       function='parseFrame', file=fnf)
     if n == 0:
         rep.broke('dispatch matrix has no cell outside Probe/Train/Query/Reset')
+    # a topology Reset discards the record, whatever else the responder believes about its session (mapper known or not)
+    nres = 0
+    for region, lst in sorted(sums.items()):
+        for s in lst:
+            if s.tos.values() == [0] and s.op.values() == [OP['reset']]:
+                nres += 1
+                head = s.st.canon(mem.load_scalar(s.st, s.so, C(fs2.soff('see_list')), fs2.ix.parse_type('void *')))
+                cnt = s.field('see_list_count', 4)
+                rep.check(head == ZERO and cnt == ZERO, 'R07.j', 'reset-discards|%s' % region,
+                          'a topology Reset (mapper known at entry: %s) leaves the record of observations in place (list head %s, count %s): the next QueryResp reports '
+                          'observations from before the Reset' % (s.k_pre, short(head), short(cnt)), function='parseFrame', file=fnf)
+    if nres == 0:
+        rep.broke('no topology Reset cell in the dispatch matrix')
     # ... and no cell at all stores into the link field of an observation that is already in the list: the list is extended
     # at its head and released from its head, a rewritten link cuts the observations behind it off (never reported)
     from .safety import link_stores
